@@ -41,11 +41,16 @@ pub mod typechecker {
         pub declared: Option<(ScopeRef, ResolvedName)>,
         pub n_declared: usize,
         pub fail_declare: bool,
+        pub name_taken: bool,
     }
     impl TypeChecker {
         pub(crate) fn get_scope_of(&self, scope: ScopeRef, ident: Identifier) -> Option<ScopeRef> {
             let k = ident.0.wrapping_sub('a' as u32) as usize;
             if k < 3 && scope.0 < NSC { self.child[scope.0][k].map(ScopeRef) } else { None }
+        }
+        pub(crate) fn declare_runtime_type(&mut self, scope: ScopeRef, ident: Identifier, type_id: crate::TypeId, doc: crate::runtime::Doc) -> Result<(), String> {
+            // name already taken in that scope (the scope graph's duplicate check, C13-U1 / C18-U2)
+            if self.name_taken { Err(String::new()) } else { Ok(()) }
         }
         pub(crate) fn declare_runtime_import(&mut self, scope: ScopeRef, name: ResolvedName) -> Result<(), String> {
             if self.fail_declare {
@@ -58,9 +63,71 @@ pub mod typechecker {
     }
 }
 
+/// stand-in for std::any::TypeId
+#[derive(Clone, Copy, Debug, PartialEq, Eq)]
+pub struct TypeId(pub u8);
+
 pub mod runtime {
     use crate::typechecker::scope::{ResolvedName, ScopeRef};
     use crate::typechecker::TypeChecker;
+    use crate::TypeId;
+
+    #[derive(Clone, Copy, Debug, PartialEq, Eq)]
+    pub struct Doc;
+    #[derive(Clone, Copy, Debug, PartialEq, Eq)]
+    pub struct Unit;
+    /// shim of RuntimeType: same field names
+    #[derive(Clone, Copy, Debug, PartialEq, Eq)]
+    pub struct RuntimeType {
+        pub name: ResolvedName,
+        pub type_id: TypeId,
+        pub movability: Unit,
+        pub eq_fn: Unit,
+        pub layout: Unit,
+        pub _docstring: Doc,
+    }
+    /// shim of items::Type: same field names
+    pub struct Type {
+        pub ident: crate::ast::Identifier,
+        pub rust_name: &'static str,
+        pub doc: Doc,
+        pub type_id: TypeId,
+        pub layout: Unit,
+        pub movability: Unit,
+        pub eq_fn: Unit,
+        pub location: Location,
+    }
+    /// inline array-backed stand-in for Vec<RuntimeType>
+    pub struct Types {
+        pub items: [Option<RuntimeType>; 4],
+        pub n: usize,
+    }
+    pub struct TypesIter<'a> {
+        t: &'a Types,
+        i: usize,
+    }
+    impl<'a> Iterator for TypesIter<'a> {
+        type Item = &'a RuntimeType;
+        fn next(&mut self) -> Option<&'a RuntimeType> {
+            if self.i < self.t.n {
+                let r = self.t.items[self.i].as_ref();
+                self.i += 1;
+                r
+            } else {
+                None
+            }
+        }
+    }
+    impl Types {
+        pub fn iter(&self) -> TypesIter<'_> {
+            TypesIter { t: self, i: 0 }
+        }
+        pub fn push(&mut self, t: RuntimeType) {
+            assert!(self.n < 4, "shim: types full");
+            self.items[self.n] = Some(t);
+            self.n += 1;
+        }
+    }
 
     #[derive(Clone, Debug)]
     pub struct Location;
@@ -77,9 +144,12 @@ pub mod runtime {
 
     pub struct Rt {
         pub type_checker: TypeChecker,
+        pub types: Types,
     }
     impl Rt {
         /*@FN_DECLARE_IMPORT@*/
+
+        /*@FN_DECLARE_TYPE@*/
     }
 
     include!("harness.rs");
